@@ -879,6 +879,72 @@ fn apply(st: &mut St, op: &str) -> String {
                 }
             }
         }
+        // dtm:<what>[:name] - the maps of the document type declaration (DOM Level 1: DocumentType.entities / notations, read-only):
+        //   read = their content through length / item / getNamedItem and the Entity / Notation accessors;
+        //   esn / nsn = setNamedItem with the first item of the map itself; ern / nrn = removeNamedItem(name)
+        "dtm" => {
+            use xml_dom::{Entity, Notation};
+            let dt = match st.doc.doc_type() {
+                Some(d) => d,
+                None => return "ok=-".to_string(),
+            };
+            let o = |v: Option<String>| v.map(|s| e(&s)).unwrap_or_else(|| "~".to_string());
+            match parts.get(1).copied().unwrap_or("") {
+                "read" => {
+                    let (em, nm) = (dt.entities(), dt.notations());
+                    let mut es: Vec<String> = vec![];
+                    let mut bad: Vec<String> = vec![];
+                    for i in 0..em.length() {
+                        match em.item(i) {
+                            Some(x) => {
+                                let name = x.node_name();
+                                match em.get_named_item(&name) {
+                                    Some(y) if y.node_name() == name => {}
+                                    _ => bad.push(format!("getNamedItem({}) does not give the entity item({}) gives", name, i)),
+                                }
+                                if x.parent_node().is_some() {
+                                    bad.push(format!("entity {} has a parent", name));
+                                }
+                                es.push(format!("E({}|{}|{}|{})", e(&name), o(x.public_id()), o(x.system_id()), o(x.notation_name())));
+                            }
+                            None => bad.push(format!("entities.item({}) is nothing although length is {}", i, em.length())),
+                        }
+                    }
+                    if em.item(em.length()).is_some() {
+                        bad.push("entities.item(length) is a node".to_string());
+                    }
+                    let mut ns: Vec<String> = vec![];
+                    for i in 0..nm.length() {
+                        match nm.item(i) {
+                            Some(x) => {
+                                let name = x.node_name();
+                                match nm.get_named_item(&name) {
+                                    Some(y) if y.node_name() == name => {}
+                                    _ => bad.push(format!("getNamedItem({}) does not give the notation item({}) gives", name, i)),
+                                }
+                                if x.parent_node().is_some() {
+                                    bad.push(format!("notation {} has a parent", name));
+                                }
+                                ns.push(format!("N({}|{}|{})", e(&name), o(x.public_id()), o(x.system_id())));
+                            }
+                            None => bad.push(format!("notations.item({}) is nothing although length is {}", i, nm.length())),
+                        }
+                    }
+                    format!("ok={}{}{}", es.join(""), ns.join(""), if bad.is_empty() { String::new() } else { format!("BAD({})", bad.join(";")) })
+                }
+                "esn" => match dt.entities().item(0) {
+                    Some(x) => match dt.entities().set_named_item(x) { Ok(_) => "ok".to_string(), Err(er) => format!("err:{}", err_class(&er)) },
+                    None => "ok=-".to_string(),
+                },
+                "nsn" => match dt.notations().item(0) {
+                    Some(x) => match dt.notations().set_named_item(x) { Ok(_) => "ok".to_string(), Err(er) => format!("err:{}", err_class(&er)) },
+                    None => "ok=-".to_string(),
+                },
+                "ern" => match dt.entities().remove_named_item(&field(&parts, 2)) { Ok(_) => "ok".to_string(), Err(er) => format!("err:{}", err_class(&er)) },
+                "nrn" => match dt.notations().remove_named_item(&field(&parts, 2)) { Ok(_) => "ok".to_string(), Err(er) => format!("err:{}", err_class(&er)) },
+                _ => "unsupported".to_string(),
+            }
+        }
         // pd: print (compact and pretty) every node the history has a handle on - the document, every tree outside it, every
         // part of them: printing returns for whatever the calls so far have built (property C03)
         "pd" => {
